@@ -37,7 +37,7 @@ extern size_t g_off, g_txlen;
 extern int g_match;
 #define MATCH_AT(pub, tx, o) ((tx)[(o)] == (pub)[0] && (tx)[(o) + 79] == (pub)[79])
 int w_checkBtcTx_any_c(const uint8_t* pub, const uint8_t* tx, size_t txlen, size_t goff, int split_verdict)
-__CPROVER_requires(txlen <= TXMAX && __CPROVER_r_ok(pub, 80) && __CPROVER_r_ok(tx, TXMAX))
+__CPROVER_requires(txlen <= TXMAX && goff <= TXMAX && __CPROVER_r_ok(pub, 80) && __CPROVER_r_ok(tx, TXMAX))
 __CPROVER_assigns(g_split_verdict, g_split_calls, g_off, g_match, g_txlen)
 /* g_match is computed by the wrapper as the 80-byte equality at goff (checked here on its two end bytes as a sanity link) */
 __CPROVER_ensures((g_match != 0) ==> (goff + 80 <= txlen && MATCH_AT(pub, tx, goff)))
